@@ -1744,6 +1744,11 @@ def run(ctx):
 def incoq(ctx, seeds):
     """Cross-check of the extraction: a sample of wire_19 cases re-evaluated inside Coq with vm_compute."""
     from vh import core
+    if core.DRIVER.get('left_out'):
+        # model files of OTHER properties do not compile on this tree (a partial driver is in use): the complete
+        # dispatcher the in-Coq evaluation loads cannot be rebuilt; their owners report that
+        ctx.extra['in_coq_crosscheck'] = 'skipped: models outside the cone do not compile (%s)' % ', '.join(sorted(set(core.DRIVER['left_out'].values())))
+        return
     cases = []
     for cseed in seeds:
         gen = gen_case(random.Random(cseed))
@@ -1762,7 +1767,20 @@ def incoq(ctx, seeds):
                            cdw([rng.randrange(4) for _ in range(3)]), cdw([0, 1, 2]), cdw([0, 1]),
                            [list(range(len(sev))), list(range(len(sev))), sev + [T]], [[0], [0], [0, T]],
                            [[0, 0, 1, [rng.randrange(5) for _ in range(T)]]] if rng.random() < 0.6 else []])
-        cases.append([19, [wparts, [[0, 0, int(rng.random() < 0.3)]], [int(x) for x in gen['keep']]]])
+        cases.append([19, [wparts, [[0, 0, rng.choice([0, 0, 8, 16, 32])]], [int(x) for x in gen['keep']]]])
+        # the metadata merge (wire_195): small random dictionaries, shared / missing keys, equal / distinct start times
+        metas = []
+        for i, p in enumerate(gen['parts']):
+            d1 = [[k, rng.randrange(3)] for k in rng.sample(range(1, 6), rng.randint(0, 3))]
+            d2 = [[k, rng.randrange(2)] for k in rng.sample(range(1, 4), rng.randint(0, 2))]
+            metas.append([p['start'] // 100, p['start'] // 100 + rng.randint(0, 3), i + 1, 10 + i, rng.randrange(2), rng.randrange(3),
+                          rng.randrange(2), 0, d1, d2, 40 + rng.randrange(2), 0])
+        cases.append([195, metas])
+        # parts of another size (wire_196), lenient and strict
+        sp = [[[2, 3] if rng.random() < 0.6 else [4, 3], p['T'], None, 10 * i] for i, p in enumerate(gen['parts'])]
+        for q in sp:
+            q[2] = [int(q[0] == [2, 3] and rng.random() < 0.7) for _ in range(q[1])]
+        cases.append([196, [rng.randrange(2), [2, 3], [[1, 1], [1, 0, 1]], 0, sp, [[1, [], [], []]]]])
         # identity of subarrays / spectral windows (wire_194) on small random tables with repeats
         cps = [[a, p, b, q] for a in (0, 1) for p in (0, 1) for b in (0, 1) for q in (0, 1)]
         subs = [[[40, 41][:rng.randint(1, 2)], rng.sample(cps, 3)] for _ in range(3)]
